@@ -431,6 +431,79 @@ fn opt_xor_cover(n: usize, f: u32, a: i64, x: i64) -> i64 {
 }
 
 /// two outputs, n <= 2: subset search with shared gate cost
+/// exact optimum for up to three outputs of at most two variables, any kind: every subset of the
+/// candidate list per output
+fn opt_small(n: usize, f: &[u32], a: i64, x: i64, o: i64, kind: &str) -> i64 {
+    let cubes = all_cubes(n);
+    let mut items: Vec<(u32, i64)> =
+        cubes.iter().map(|c| (tt_of_cube(n, *c), a * gates((c.0.count_ones() + c.1.count_ones()) as usize))).collect();
+    if kind == "sopes" {
+        for v in 0..(1u32 << n) {
+            for xn in [false, true] {
+                if v.count_ones() >= 2 {
+                    items.push((tt_of_ecube(n, (v, xn)), x * gates(v.count_ones() as usize)));
+                }
+            }
+        }
+    }
+    let k = items.len();
+    let join = if kind == "esop" { x } else { o };
+    let mut ok: Vec<Vec<u32>> = Vec::new();
+    for fj in f {
+        let mut l = Vec::new();
+        for s in 0..(1u32 << k) {
+            let mut val = 0u32;
+            let mut good = true;
+            for i in 0..k {
+                if (s >> i) & 1 != 0 {
+                    if kind == "esop" {
+                        val ^= items[i].0;
+                    } else {
+                        if items[i].0 & !fj != 0 {
+                            good = false;
+                            break;
+                        }
+                        val |= items[i].0;
+                    }
+                }
+            }
+            if good && val == *fj {
+                l.push(s);
+            }
+        }
+        ok.push(l);
+    }
+    let cost_of = |u: u32| -> i64 { (0..k).filter(|&i| (u >> i) & 1 != 0).map(|i| items[i].1).sum() };
+    let joins = |s: u32| -> i64 { let c = s.count_ones() as i64; if c > 1 { join * (c - 1) } else { 0 } };
+    let mut best = i64::MAX;
+    let mut idx = vec![0usize; ok.len()];
+    if ok.iter().any(|l| l.is_empty()) {
+        return best;
+    }
+    loop {
+        let mut u = 0u32;
+        let mut c = 0i64;
+        for (j, &q) in idx.iter().enumerate() {
+            u |= ok[j][q];
+            c += joins(ok[j][q]);
+        }
+        c += cost_of(u);
+        best = best.min(c);
+        let mut j = 0;
+        loop {
+            if j == idx.len() {
+                return best;
+            }
+            idx[j] += 1;
+            if idx[j] < ok[j].len() {
+                break;
+            }
+            idx[j] = 0;
+            j += 1;
+        }
+    }
+}
+
 fn opt_pair(n: usize, f: [u32; 2], a: i64, x: i64, o: i64, kind: &str) -> i64 {
     let cubes = all_cubes(n);
     let mut items: Vec<(u32, i64)> =
@@ -659,6 +732,8 @@ fn oracle_line(line: &str) -> Result<bool, String> {
         })
     } else if p.tabs.len() == 2 && n <= 2 {
         Some(opt_pair(n, [tt[0], tt[1]], p.a, p.x, p.o, &p.kind))
+    } else if p.tabs.len() == 3 && n <= 2 && p.kind != "sopes" {
+        Some(opt_small(n, &tt, p.a, p.x, p.o, &p.kind))
     } else if p.kind != "esop" && p.tabs.len() <= 3 && n <= 3 {
         opt_multi_or(n, &tt, p.a, p.x, p.o, p.kind == "sopes")
     } else {
@@ -696,6 +771,16 @@ fn gen_deep(seed: u64) -> Vec<String> {
         // measured on a seeded 5% optimality gap: only the richer `sopes` programmes stop early
         let kind = if i % 10 == 9 { "sop" } else { "sopes" };
         out.push(format!("mip {} {} {} {} {}", kind, a, x, o, tabs.join(" ")));
+    }
+    // every list of three functions of two variables as an XOR form, AND dear and XOR cheap (seed
+    // C18-g: a cap on the number of cubes per output shows only there)
+    for f in 0..16u64 {
+        for g in f..16u64 {
+            for h in g..16u64 {
+                let t = |v: u64| Tab::new(2, vec![v]).show();
+                out.push(format!("mip esop 3 1 1 {} {} {}", t(f), t(g), t(h)));
+            }
+        }
     }
     out
 }
@@ -772,6 +857,7 @@ fn gen(thorough: bool, seed: u64) -> Vec<String> {
     // covers of each output
     // (measured on that seed: about 4% of sparse triples with costs 1/3 show it, pairs almost never)
     let unequal: [(i64, i64, i64); 4] = [(1, 2, 3), (3, 2, 1), (3, 1, 1), (1, 1, 3)];
+    let saved_r = std::mem::replace(&mut r, Rng::new(seed, "C18-triples"));
     for i in 0..(if thorough { 600 } else { 160 }) {
         let k = if i % 8 == 7 { 2 } else { 3 };
         let tabs: Vec<String> = (0..k)
@@ -803,6 +889,13 @@ fn gen(thorough: bool, seed: u64) -> Vec<String> {
             }
         }
     }
+    // three outputs of two variables as XOR forms (exact optimum by enumeration)
+    for (f, g, h) in [(1u64, 1u64, 8u64), (6, 9, 1), (7, 8, 14), (1, 2, 4), (6, 6, 9), (11, 13, 14), (15, 1, 6), (8, 4, 2)] {
+        let t = |v: u64| Tab::new(2, vec![v]).show();
+        for (a, x) in [(3i64, 1i64), (1, 1), (1, 3), (2, 1)] {
+            out.push(format!("mip esop {} {} 1 {} {} {}", a, x, t(f), t(g), t(h)));
+        }
+    }
     // the integer programme itself (hook verif_last_ilp) against the model's, constraint by
     // constraint: every function of n <= 2, lists of one to three functions of n <= 4
     for n in 0..=2usize {
@@ -812,6 +905,7 @@ fn gen(thorough: bool, seed: u64) -> Vec<String> {
             }
         }
     }
+    r = Rng::new(seed, "C18-ilp");
     for i in 0..(if thorough { 400 } else { 90 }) {
         let n = match i % 6 {
             0 | 1 => 2,
@@ -838,6 +932,7 @@ fn gen(thorough: bool, seed: u64) -> Vec<String> {
         }
         out.push(format!("mipilp {} {} {} {} {}", kind, a, x, o, tabs.join(" ")));
     }
+    r = saved_r;
     // random lists up to n = 4 with 1..3 outputs: exactness only
     for _ in 0..(if thorough { 60 } else { 8 }) {
         let n = 3 + r.below(2);
